@@ -483,6 +483,16 @@ class Flow:
                 out.setdefault(t["otherwise"], []).append(("bool", e, False))
             # `let w = a && b; if w {..}`: the switched local is `false` (constant) on the short-circuit arm and `b` on the
             # other -- its TRUE edge can only have come from `b` being true (dually for `||`)
+            # `x.is_some()` / `is_none()` / `is_ok()` / `is_err()` / `is_ready()` / `is_pending()` of a plain local: the edge
+            # also tells the variant of x (so `if item.is_some() { .. }` prunes like `if let Some(_) = item`)
+            ps = self._probe_source(d)
+            if ps is not None:
+                pj, tv, fv = ps
+                pe_ = self.place_expr(pj)
+                for tgt, labs in list(out.items()):
+                    for lab in list(labs):
+                        if lab[0] == "bool" and lab[1] == e:
+                            out[tgt].append(("variant", pe_, tv if lab[2] else fv, pj))
             sc = self._short_circuit_def(d)
             if sc is not None:
                 cval, other = sc
@@ -523,6 +533,34 @@ class Flow:
         if len(consts) == 1 and len(others) == 1:
             return consts[0], others[0]
         return None
+
+    PROBES = {"core::option::Option::<T>::is_some": ("Some", "None"), "core::option::Option::<T>::is_none": ("None", "Some"),
+              "core::result::Result::<T, E>::is_ok": ("Ok", "Err"), "core::result::Result::<T, E>::is_err": ("Err", "Ok"),
+              "core::task::Poll::<T>::is_ready": ("Ready", "Pending"), "core::task::Poll::<T>::is_pending": ("Pending", "Ready")}
+
+    def _probe_source(self, d):
+        """switch operand = bool local single-assigned from a variant probe of `&<place without deref>`:
+        (place_json, variant when true, variant when false)."""
+        if d["k"] not in ("copy", "move") or d["place"]["p"]:
+            return None
+        sd = self.single_def(d["place"]["l"])
+        if sd in (None, "param") or sd[2] != "call":
+            return None
+        t = sd[3]
+        f = t["func"]
+        if f["k"] != "const" or "fn" not in f or f["fn"]["def"] not in self.PROBES or not t["args"]:
+            return None
+        a = t["args"][0]
+        if a["k"] not in ("copy", "move") or a["place"]["p"]:
+            return None
+        rd = self.single_def(a["place"]["l"])
+        if rd in (None, "param") or rd[2] != "assign" or rd[3]["rv"]["k"] != "ref":
+            return None
+        pj = rd[3]["rv"]["place"]
+        if any(el["k"] == "deref" for el in pj["p"]):
+            return None
+        tv, fv = self.PROBES[f["fn"]["def"]]
+        return pj, tv, fv
 
     def _discr_source(self, d):
         """If switch operand is a local single-assigned from discriminant(place): (place_json, variants)."""
